@@ -310,7 +310,7 @@ fn tsan_run(ctx: &RunCtx) -> Result<(usize, String, Value), String> {
     let out = Command::new(&bin)
         .args(["C18", "thorough"])
         .env("FRV_C18_TSAN_INNER", "1")
-        .env("FRV_C18_ROUNDS", "10")
+        .env("FRV_C18_ROUNDS", "40")
         .env("VERIF_SEED", ctx.seed.to_string())
         .env("VERIF_DIR", format!("{}/harness/target/tsan-scratch", verif_dir()))
         .env("TSAN_OPTIONS", "halt_on_error=0 report_thread_leaks=0 exitcode=0")
@@ -321,7 +321,7 @@ fn tsan_run(ctx: &RunCtx) -> Result<(usize, String, Value), String> {
     let races: Vec<&str> = err.split("WARNING: ThreadSanitizer: ").skip(1).filter(|r| r.starts_with("data race")).collect();
     let first = races.first().map(|r| r.lines().take(14).collect::<Vec<_>>().join(" | ")).unwrap_or_default();
     let inner_violation = so.lines().any(|l| l.starts_with("VIOLATION"));
-    Ok((races.len() + inner_violation as usize, if first.is_empty() && inner_violation { so.lines().find(|l| l.starts_with("violation")).unwrap_or("").to_string() } else { first }, json!({"rounds": 10, "data_race_reports": races.len(), "exit": out.status.code()})))
+    Ok((races.len() + inner_violation as usize, if first.is_empty() && inner_violation { so.lines().find(|l| l.starts_with("violation")).unwrap_or("").to_string() } else { first }, json!({"rounds": 40, "data_race_reports": races.len(), "exit": out.status.code()})))
 }
 
 pub fn replay(ctx: &RunCtx, case: &Value) -> Result<Option<Fail>, String> {
